@@ -210,7 +210,33 @@ prop('C05', level='other', design_ref='DESIGN.md section 6 (C05)',
                'bound': '14 (thorough: 84) generated chains x 2 cut points x 3 continuations'}],
      not_decided=['flush_backup crash obligations not generated deductively'], assumptions=[])
 
-for _pid in ['C07', 'C08', 'C09', 'C11']:
+_MP_NOTE = ('Trusted: daemon data well-formed (T-DAEMON). Exactness of the view (C08) and behaviour under races (C09) are decided by the '
+            'bounded stand-in only; the deductive part is the index-consistency invariant and the no-raise/frame contracts.')
+prop('C08', level='other', design_ref='DESIGN.md section 6 (C08)',
+     technique='deductive verification of the mempool index-consistency invariant on the query functions (VCs from real source, z3) '
+               '+ bounded native comparison with an independent mempool model',
+     text='Under the invariant the query functions cannot raise and modify nothing; exact balances, summaries, UTXOs, potential '
+          'spends and touched completeness are compared with a model over generated mempool histories (bounded).',
+     note=_MP_NOTE, explanation='Components deductive; exactness bounded (labelled).',
+     bounded=[{'obligation': 'mempool.c08.bounded', 'driver': 'mempool_native.py', 'request': {'mode': 'c08', 'rounds': 40},
+               'what': 'every observable of a synchronised mempool equals the model; touched set complete',
+               'bound': '40 (thorough: 240) generated histories of 4-11 steps (arrivals, chains of 3-8, evictions, confirmations, '
+                        'generation-like inputs, 8 scripts)'}],
+     not_decided=['_accept_transactions / _process_mempool / _fetch_and_accept exactness not under deductive contract'], assumptions=[])
+prop('C09', level='other', design_ref='DESIGN.md section 6 (C09)',
+     technique='deductive verification of the index-consistency invariant (as C08) + bounded native race injection against an '
+               'independent mempool model',
+     text='Refreshes with transactions vanishing between listing and fetching and UTXO lookups missing never raise, never record a '
+          'wrong input, keep the inverse index exact and converge on the next quiet refresh (bounded).',
+     note=_MP_NOTE, explanation='Bounded (labelled) + invariant components.',
+     bounded=[{'obligation': 'mempool.c09.bounded', 'driver': 'mempool_native.py', 'request': {'mode': 'c09', 'rounds': 40},
+               'what': 'raced refreshes: no exception, no wrong input pair, inverse index exact, exact view after the next quiet refresh',
+               'bound': '40 (thorough: 240) generated histories; each step raced with probability 1/2 (30% of fetches dropped, lookup '
+                        'miss rate 0 / 0.3 / 1)'}],
+     not_decided=['interference at the awaits of _refresh_hashes/_process_mempool/_fetch_and_accept not generated deductively',
+                  'worker-thread preemption inside DB.lookup_utxos'], assumptions=[])
+
+for _pid in ['C07', 'C11']:
     na(_pid, 'contracts for this property are not yet built in this round (planned: DESIGN.md section 6); nothing is claimed')
 na('C06', 'quantifies over cancellation instants of an asyncio task while worker-thread jobs keep running: not '
           'expressible as pre/postconditions of functions in a sequential or cooperative model (DESIGN.md section 6, C06)')
